@@ -1409,7 +1409,7 @@ class Raw(C13Stream):
             'delegation ids incl. empty delegation objects; non-trivial = at least one delegation id')
 
     def gen(self, rng, tier):
-        n = 360 if tier == 'quick' else 3500
+        n = 360 if tier == 'quick' else 3000
         out = []
         for _ in range(n):
             nn = rng.randint(2, 14)
